@@ -247,3 +247,141 @@ def run(ctx):
     ctx.extra["registration_kernel"] = {"configurations": len(cfgs), "schedules_forced": len(jobs), "conforming": conforming, "window_schedules_reproducing_F8": window,
                                         "expected_model_violations_without_protocol": notes}
     return nviol, ndrift
+
+
+# ---------------------------------------------------------------------------------------------
+# Closing.tla: a registration racing the failure path of the runtime
+CLOSE_INV = ["TypeOK", "NoUnknownRunner", "TableGoneOnlyWhenNotRunning", "AdoptNeverRaises"]
+
+
+def close_module(name, flav, emit):
+    lines = ["---- MODULE %s ----" % name, "EXTENDS Closing, Json"]
+    lines.append("MCSubs == 1..%d" % len(flav))
+    lines.append("MCFlav == <<" + ", ".join('"%s"' % f for f in flav) + ">>")
+    lines.append("St == [mpc |-> mpc, table |-> table, alive |-> alive, running |-> running, loopopen |-> loopopen, spc |-> spc, sres |-> sres, fate |-> fate]")
+    if emit:
+        lines.append("Who == IF mpc' # mpc THEN 0 ELSE CHOOSE s \\in MCSubs : spc'[s] # spc[s]")
+        lines.append('Emit == PrintT(<<"EDGE", ToJson([f |-> St, a |-> Who, t |-> St\'])>>)')
+    lines.append("====")
+    return "\n".join(lines)
+
+
+def close_cfg(invariants, emit, liveness=True):
+    cfg = "SPECIFICATION Spec\nCONSTANTS\n Subs <- MCSubs\n FlavOf <- MCFlav\n"
+    cfg += "".join("INVARIANT %s\n" % i for i in invariants)
+    if liveness:
+        cfg += "PROPERTY Settles\n"
+    if emit:
+        cfg += "ACTION_CONSTRAINT Emit\n"
+    return cfg
+
+
+def close_expected_at(state, who):
+    if who == 0:
+        return {"closing": "mr.aclose.begin", "aclosed": "mr.aclose.end", "finally": "mr.running.clear", "ended": "end"}[state["mpc"]]
+    return {"hit": "mr.reg.direct", "miss": "mr.reg.miss", "toqueue": "mr.reg.queue", "done": "ret"}[state["spc"][who - 1]]
+
+
+def compare_closing(flav, acts, exps, obs):
+    viol, drift = [], []
+    if obs is None or obs.get("error"):
+        return viol, ["scheduler process failed: %s" % (obs or {}).get("error", "no output")]
+    steps = obs["steps"]
+    for i, (who, st) in enumerate(zip(acts, exps)):
+        if i >= len(steps):
+            drift.append("step %d (%s): the thread never arrived anywhere (stuck: %s)" % (i + 1, who or "main", obs.get("stuck")))
+            return viol, drift
+        s = steps[i]
+        got_who = 0 if s["who"] == "main" else s["who"]
+        want = close_expected_at(st, who)
+        if got_who != who or s["at"] != want:
+            drift.append("step %d: %s expected to arrive at %s, arrived at %s (%s)" % (i + 1, "main" if who == 0 else "submitter %d" % who, want, s["at"], s.get("res") or s.get("cause") or ""))
+            return viol, drift
+        if who and want == "ret" and s["res"] != st["sres"][who - 1]:
+            msg = "step %d: adopt of submitter %d (%s) while main stands at '%s': specification says %s, the code did %s" % (i + 1, who, flav[who - 1], st["mpc"], st["sres"][who - 1], s["res"])
+            if s["res"] != "ok":
+                viol.append(("AdoptNeverRaises", msg, {"res": s["res"].split(":")[0], "flavour": flav[who - 1], "main_at": st["mpc"]}))
+            else:
+                drift.append(msg)
+            return viol, drift
+    final = exps[-1]
+    if obs["accept_running"]:
+        drift.append("accept() still runs although a payload failed")
+    cause = obs["main_end"].get("cause", "")
+    if not obs["accept_running"] and not cause.startswith("Boom"):
+        drift.append("accept() ended with %s, expected the scheduled failure as its cause" % obs["main_end"])
+    for s in range(1, len(flav) + 1):
+        fate = final["fate"][s - 1]
+        c = obs["starts"].get(str(s), 0)
+        lo, hi = {"started": (1, 1), "unsupervised": (1, 1), "maybe": (0, 1), "abandoned": (0, 1)}.get(fate, (0, 0))
+        if not lo <= c <= hi:
+            what = "payload %d (%s, %s) started %d time(s), the specification says %d..%d" % (s, flav[s - 1], fate, c, lo, hi)
+            if c > 1 or (fate == "started" and c == 0):
+                viol.append(("NoneLost" if c == 0 else "StartedOnce", what, {"fate": fate, "flavour": flav[s - 1]}))
+            else:
+                drift.append(what)
+    if obs["wrong_flavour"]:
+        viol.append(("RightFlavour", "payloads %s ran outside the runner of their flavour" % obs["wrong_flavour"], {}))
+    return viol, drift
+
+
+def run_closing(ctx):
+    thorough = ctx.tier == "thorough"
+    rnd = random.Random(ctx.seed + 17)
+    two = list(itertools.product(FLAVS, repeat=2))
+    three = list(itertools.product(FLAVS, repeat=3))
+    cfgs = two + (three if thorough else rnd.sample(three, 3))
+    per_cfg = 400 if thorough else 14
+
+    def explore(arg):
+        k, flav = arg
+        name = "MCClose_%s" % "".join(f[:2] for f in flav)
+        return name, tlc.run(name, close_cfg(CLOSE_INV, True), module_text=close_module(name, flav, True), name=name, workers=1, timeout=600, coverage=(k < 1), heap="1g")
+
+    def window_run(_):
+        name = "MCClose_left_alone"
+        return name, tlc.run(name, close_cfg(["NeverLeftAlone"], False, liveness=False), module_text=close_module(name, ("asyncio", "threading"), False), name=name, workers=1, timeout=300, heap="1g")
+
+    with ThreadPoolExecutor(max_workers=10) as ex:
+        explored = list(ex.map(explore, enumerate(cfgs)))
+        left = list(ex.map(window_run, [0]))[0]
+    jobs, meta = [], []
+    for k, (flav, (name, res)) in enumerate(zip(cfgs, explored)):
+        ctx.model_must_hold(name, res)
+        ctx.add_model_run(name, res)
+        g = graph.from_prints(res.prints)
+        if not g.nedges:
+            raise tlc.MachineryError("%s: no transitions emitted" % name)
+        paths, remaining = complete_paths(g, None if thorough else per_cfg * 8, ctx.seed + k)
+        if len(paths) > per_cfg:
+            paths = rnd.sample(paths, per_cfg)
+        for acts, exps in paths:
+            sched = []
+            for a, st in zip(acts, exps):
+                sched.append(a if a else ("fail" if st["mpc"] == "closing" else "main"))
+            jobs.append({"close": True, "flav": list(flav), "sched": sched})
+            meta.append((flav, acts, exps))
+    tlc.require_ok(left[1], left[0])
+    if not left[1].violated:
+        raise tlc.MachineryError("Closing.tla is expected to violate NeverLeftAlone (finding F13 and its threading variant); it does not")
+    obs = run_jobs(jobs)
+    alone = conforming = 0
+    for (flav, acts, exps), job, o in zip(meta, jobs, obs):
+        ctx.traces_total += 1
+        ctx.events_total += len(acts)
+        viol, drift = compare_closing(flav, acts, exps, o)
+        case = {"kernel": "Closing", "flavours": list(flav), "schedule": job["sched"], "observed": o}
+        if any(f in ("abandoned", "unsupervised") for f in exps[-1]["fate"]):
+            alone += 1
+        for formula, what, extra in viol:
+            fp = {"invariant": formula, "kernel": "closing"}
+            fp.update(extra)
+            ctx.add_violation(formula, fp, "closing kernel, schedule %s: %s" % (job["sched"], what), case)
+        for what in drift:
+            ctx.add_drift("closing kernel (%s) schedule %s: %s" % ("/".join(flav), job["sched"], what), case)
+        if not viol and not drift:
+            ctx.traces_accepted += 1
+            conforming += 1
+            ctx.note_distinct(["close", flav, job["sched"]])
+    print("NOTE property=C03 closing kernel: %d forced schedules of adopt() racing the failure path; in %d of them a payload handed to an already closed asyncio / threading runner runs unsupervised, as Closing.tla predicts (NeverLeftAlone fails in the model: finding F13 of C02 and its threading variant; not a clause of C03)" % (len(jobs), alone))
+    ctx.extra["closing_kernel"] = {"configurations": len(cfgs), "schedules_forced": len(jobs), "conforming": conforming, "schedules_with_unsupervised_payload": alone}
